@@ -131,7 +131,7 @@ end Kodama
                    hypotheses; `C14_linkage_single_complete` unconditionally (single needs NO
                    hypothesis on the numbers at all, complete `OrderLaws` + NaN-free input).
 
-NOT proved: `ChainReducible` for weighted / Ward over IEEE floats (FALSE there, ~11% of tied
+NOT proved: `ChainReducible` for Ward over IEEE floats (weighted: `Props/C14Weighted.lean`; Ward FALSE there, ~11% of tied
 updates; for AVERAGE it is a theorem since the `fix:` commit of the crate, `Props/C14Average.lean`:
 `C14_nnchain_average`, `C14_linkage_average`).  For these two methods on floats the bound rests on (i) the exact model/hook count
 correspondence and (ii) the oracle checking the bound on the real crate on adversarial inputs up to
